@@ -151,7 +151,17 @@ func (srPoison) EncodeArray(enc log.Encoder) {
 }
 
 // srCall logs one event; poisoned events are expected to panic with the encoder's own value.
+type srIDKey struct{}
+
+const srBare = -1 // size marker of a field-less event
+
 func srCall(ctx context.Context, id int64, size int, poison bool) (unexpected any) {
+	ctx = context.WithValue(ctx, srIDKey{}, id) // the timestamp hook derives the event's time from it
+	if size == srBare {
+		// an event without any field: nothing of its own to format (and no id: its line is recognised by its time)
+		log.Warn(ctx, srTag)
+		return nil
+	}
 	if !poison {
 		srLog(ctx, id, size)
 		return nil
@@ -209,7 +219,14 @@ func cmdSyncRec(f hx.Flags, r *hx.Result) {
 	}
 	defer func() { log.VerifBuf, log.VerifEvt = nil, nil }()
 	fixed := time.Date(2030, 1, 2, 3, 4, 5, 678000000, time.UTC)
-	log.TimeNow = func(context.Context) time.Time { return fixed }
+	// every event has its own second (derived from its id): whatever a layout remembers about the time it formatted
+	// last, a line shows its own event's time
+	log.TimeNow = func(ctx context.Context) time.Time {
+		if id, ok := ctx.Value(srIDKey{}).(int64); ok {
+			return fixed.Add(time.Duration(id%100000) * time.Second)
+		}
+		return fixed
+	}
 	defer func() { log.TimeNow, log.FieldsFromContext, log.VerifNow, log.VerifRoll = nil, nil, nil, nil }()
 	runs := f.Int("runs", 24)
 	budget := f.Int("events", 12000) // trace events written for TLC
@@ -241,6 +258,10 @@ func cmdSyncRec(f hx.Flags, r *hx.Result) {
 		slowSinkLog = &sinkLog{}
 		cfg := sys.Cfg{}
 		cfg["bufferCap"] = "1KB"
+		// the caller lookup is a process-wide property: most runs have it on, every fifth one off - then no line may
+		// show a location, whatever the pooled event objects carried before
+		callerOff := run%5 == 4
+		cfg["enableCaller"] = fmt.Sprint(!callerOff)
 		ex := map[string]string{}
 		switch sinkKind {
 		case "console":
@@ -305,7 +326,7 @@ func cmdSyncRec(f hx.Flags, r *hx.Result) {
 			}
 		}
 		desc := map[string]any{"sink": sinkKind, "layout": layout, "goroutines": goroutines, "events_each": per,
-			"ctx_hook": log.FieldsFromContext != nil, "rotation_churn": log.VerifNow != nil}
+			"ctx_hook": log.FieldsFromContext != nil, "rotation_churn": log.VerifNow != nil, "caller_lookup": !callerOff}
 		type evt struct {
 			id     int64
 			size   int
@@ -373,6 +394,9 @@ func cmdSyncRec(f hx.Flags, r *hx.Result) {
 		for g := 0; g < goroutines; g++ {
 			for k := 0; k < per; k++ {
 				e := evt{int64(g*1000 + k + 1), sizes[rng.Intn(len(sizes))], poisoned && k%4 == 1}
+				if run%3 == 2 && k%6 == 4 {
+					e.size = srBare
+				}
 				perG[g] = append(perG[g], e)
 				all = append(all, e)
 			}
@@ -466,6 +490,11 @@ func cmdSyncRec(f hx.Flags, r *hx.Result) {
 		}
 		bad := 0
 		for line := range got {
+			if callerOff && want[line] > 0 && !strings.Contains(line, "[:0] ") && !strings.Contains(line, `"fileLine":":0"`) {
+				bad++
+				r.Violate("foreign-location:"+sinkKind, desc, "caller lookup is off, but a line shows a location: %.120q", line)
+				break
+			}
 			// absolute part of "byte-identical to the event formatted alone": the level name in the line is the event's own
 			if lid, lvl := sys.ParseLine([]byte(strings.TrimSuffix(line, "\n"))); lid > 0 && want[line] > 0 && !strings.EqualFold(lvl, srLevelOf(lid).Name()) {
 				bad++
